@@ -52,7 +52,7 @@ NoOverdraft == \A i \in 1..Len(hist) : (hist[i].op \in {"transfer", "sec_to_pub"
 Bound == Len(hist) <= MaxOps
 
 (* verification of a transfer: the proof term names everything it was made for; tampering with one component breaks the match *)
-Fields == {"none", "remaining_lo", "remaining_hi", "transferred_lo", "transferred_hi", "index", "sender_key", "receiver_key", "balance", "proof"}
+Fields == {"none", "remaining_lo", "remaining_hi", "transferred_lo", "transferred_hi", "index", "sender_key", "receiver_key", "balance", "proof", "proof_surplus_response"}
 SecToPubFields == {"none", "remaining_lo", "remaining_hi", "amount", "index", "key", "balance", "proof"}
 VerifyOk(tamper) == tamper = "none"
 ExportDone == Len(hist) = MaxOps => PrintT(<<"REPLAY", ToJson([kind |-> "enc_amount", w |-> W, ops |-> hist, fields |-> Fields, s2p_fields |-> SecToPubFields])>>)
